@@ -881,8 +881,9 @@ fn parse_zone(
                 })
             }
         },
-        5 => match string.chars().nth(4) {
-            Some(char) if char.is_ascii_digit() => {
+        5 => match (string.chars().nth(3), string.chars().nth(4)) {
+            // Seconds are only present if a second colon follows the minutes
+            (Some(':'), Some(char)) if char.is_ascii_digit() => {
                 remove_part(1, string)?;
                 let minute = pick_part::<u32>(2, string, "timezone minute")?;
                 remove_part(1, string)?;
